@@ -44,6 +44,22 @@ def evaluate(chk, cases, tag='cases'):
     terms = {i: render(cases[i], obs[i]) for i in gi}
     for j in chk.coq_failing(HEADER, [terms[i] for i in gi], 'check_pcase', shard=40, tag=tag):
         failing.setdefault(gi[j], []).append('an interleaved iterator yielded a repeated node or a different set of nodes than the model\'s answer')
+    # the loader cases once more in another process with the differently configured HPOA loaders in the opposite order
+    li = [i for i, c in enumerate(cases) if c['kind'] == 'loader' and c.get('hpoa_rich') and 'crash' not in obs[i]]
+    if li:
+        rev = chk.run_impl('C12', {'cases': [dict(cases[i], rev=True) for i in li], 'workdir': str(chk.work)}, timeout=1500)['cases']
+        for i, o2 in zip(li, rev):
+            if 'crash' in o2:
+                failing.setdefault(i, []).append('driver crashed: ' + o2['crash'])
+                continue
+            t1, t2 = obs[i].get('hpoa_table', {}), o2.get('hpoa_table', {})
+            bad = sorted(k for k in t1 if t1[k] != t2.get(k))
+            if bad:
+                obs[i].setdefault('direct', []).append(
+                    f'HPOA loads depend on the order in which differently configured loaders ran in the process: (cohort_size/salvage:file) {bad[:4]} '
+                    f'e.g. {json.dumps(t1[bad[0]])[:160]} vs {json.dumps(t2.get(bad[0]))[:160]}')
+            if o2.get('direct'):
+                obs[i].setdefault('direct', []).extend(o2['direct'])
     for i, o in enumerate(obs):
         if 'crash' in o:
             failing.setdefault(i, []).append('driver crashed: ' + o['crash'])
@@ -122,7 +138,8 @@ def run(chk):
         cases.append(gen_graph_case(rng, thorough))
     for _ in range(4 if not thorough else 12):
         docs = [DOCS.obographs_doc(rng, 'HP', 3 + j) for j in range(3)]
-        cases.append({'kind': 'loader', 'docs': docs, 'order': rng.choice([[0, 1, 0], [0, 1, 2, 0, 1], [1, 0, 0, 1]]), 'hpoa': [DOCS.hpoa_text(1), DOCS.hpoa_text(2)]})
+        cases.append({'kind': 'loader', 'docs': docs, 'order': rng.choice([[0, 1, 0], [0, 1, 2, 0, 1], [1, 0, 0, 1]]), 'hpoa': [DOCS.hpoa_text(1), DOCS.hpoa_text(2)],
+                      'hpoa_rich': [DOCS.hpoa_rich(1), DOCS.hpoa_rich(2)]})
     cases.append({'kind': 'loader', 'docs': DOCS.chained_docs(rng, 'HP'), 'order': [0, 1, 0, 1], 'hpoa': [DOCS.hpoa_text(1), DOCS.hpoa_text(2)]})
     for c in cases:
         chk.count('kind:' + c['kind'])
@@ -141,7 +158,9 @@ def run(chk):
                 'simultaneously open ancestor / descendant iterators (the same query twice in 40%), ALL interleavings of 2-4 next() calls each when <= 60 (thorough: <= 1680), else a random '
                 'sample: each iterator must yield exactly its solo sequence, and the yields are compared with the model in Coq (no repeats, right multiset); (c) digest of the graph '
                 'object before/after (diagnostic); (d) 8 reader threads x 150 random queries against precomputed answers on 30% of the graphs; (e) Obographs documents A,B,A,.. '
-                'through the shared default factories of both loaders vs fresh factories, HPOA files A,B,A through one loader instance')
+                'through the shared default factories of both loaders vs fresh factories, HPOA files A,B,A through one loader instance; HPOA files whose frequencies depend on the '
+                'loader configuration (frequency terms, percentages, negated lines) through five differently configured loaders (cohort size, salvaging) in one process, in two processes with opposite orders: '
+                'every (configuration, file) result must be the same')
     if failing:
         report(chk, cases, obs, failing)
 
@@ -152,7 +171,7 @@ def sig_of(problems):
         return 'C12:interleaved-iterators'
     if 'thread' in p:
         return 'C12:reader-threads'
-    if 'loads differently' in p or 'default factories' in p:
+    if 'loads differently' in p or 'default factories' in p or 'loads depend on the order' in p:
         return 'C12:loader-history'
     if 'partially consumed' in p:
         return 'C12:query-history'
